@@ -864,8 +864,10 @@ def san_stage(ctx, exe_san, fails, known):
                 fails.append(dict(kind="sanitizer", what="UBSan: %s -- the stage switch shifts a negative value left again (F14 is recorded "
                                   "as fixed)" % (m[0].strip() if m else "left shift of negative value in vr32.c"), ops=ops))
         else:
-            fails.append(dict(kind="sanitizer", what="ASan/UBSan report (model predicts a negative left shift: %s): %s" % (
-                info["shl"] is not None, err[-500:]), ops=ops))
+            first = [l.strip() for l in err.splitlines() if "runtime error" in l or "ERROR: AddressSanitizer" in l or "Assertion" in l][:1]
+            fails.append(dict(kind="sanitizer", what="ASan/UBSan report (model predicts a negative left shift: %s; a stage below its preload: %s): "
+                              "%s | innermost frame %s | %s" % (info["shl"] is not None, info["under"] is not None, first[0] if first else "",
+                                                                  frame0(err), err[-300:]), ops=ops))
     ctx.count("sanitizer_runs_total", len(res))
     return hits, f36
 
